@@ -200,4 +200,37 @@ func c09Refused(c *Ctx) {
 	if refused == 0 {
 		c.Inconclusive("refused scenario: the limiter never refused")
 	}
+	// queries that arrive with the TC bit set (legal on the wire, if unusual) and are answered with a
+	// locally made response - NOTIMP (RD clear, opcode other than QUERY, two questions), REFUSED by
+	// the limiter - or forwarded: the response is a few dozen octets, nothing was omitted, so it must
+	// not say "truncated"
+	time.Sleep(2200 * time.Millisecond) // the tiny bucket refills
+	for k, kind := range []string{"rd0", "opcode2", "two-questions", "forwarded", "limited", "limited", "limited"} {
+		q := new(dns.Msg)
+		q.Id = uint16(300 + k)
+		q.RecursionDesired = kind != "rd0"
+		q.Truncated = true
+		q.Question = []dns.Question{{Name: fmt.Sprintf("ok-tcq%d.pipe.test.", k), Qtype: dns.TypeA, Qclass: dns.ClassINET}}
+		if kind == "opcode2" {
+			q.Opcode = dns.OpcodeStatus
+		}
+		if kind == "two-questions" {
+			q.Question = append(q.Question, dns.Question{Name: "second.pipe.test.", Qtype: dns.TypeA, Qclass: dns.ClassINET})
+		}
+		wire, _ := q.Pack()
+		listener := []string{"udp", "tcp"}[k%2]
+		x := b.Exchange(listener, wire, xOpts{Timeout: 4 * time.Second})
+		c.Ev.Eval(1)
+		m := new(dns.Msg)
+		if x.Err != nil || m.Unpack(x.Resp) != nil {
+			continue
+		}
+		if m.Truncated && len(x.Resp) < 400 {
+			c.Violation("e2e:tc-without-omission:tc-set-in-query", fmt.Sprintf("%s listener, query of kind %q that arrived with the TC bit set: the %d-octet response (rcode %d, %d answers) has TC set although nothing had to be omitted", listener, kind, len(x.Resp), m.Rcode, len(m.Answer)),
+				map[string]any{"listener": listener, "kind": kind, "response_hex": hex.EncodeToString(x.Resp[:min(len(x.Resp), 120)])})
+			return
+		}
+		c.Ev.Distinct("e2e", "tc-in-query", kind, listener, m.Rcode)
+		c.Ev.Count("e2e_tc_marked_queries_answered_without_tc", 1)
+	}
 }
